@@ -12,6 +12,8 @@ static std::atomic<int> g_dwellUs{0};
 static std::atomic<int> g_barrierNeed{0}, g_barrierArrived{0};
 static std::atomic<int> g_callSeq{0};
 static std::atomic<int> g_lateId{-1}, g_lateStarted{0}, g_lateGo{0}; // scripted late thrower (C05)
+static std::atomic<int> g_cancelerId{-1}; // a body that cancels its own set (C04 D3)
+static std::atomic<SetH*> g_cancelSet{nullptr};
 
 // ------------------------------------------------------------------ sentinel
 void Sentinel::start() {
@@ -76,6 +78,11 @@ struct Body {
     vrt::progress();
     int d = g_dwellUs.load(std::memory_order_relaxed);
     if (d) vrt::spinFor(d);
+    if (id >= 0 && id == g_cancelerId.load(std::memory_order_relaxed)) {
+      SetH* cs = g_cancelSet.load(std::memory_order_relaxed);
+      if (cs) cs->cancel();
+      g_throwStamp[id].store(vrt::stamp(), std::memory_order_relaxed); // taken after cancel() returned
+    }
     int thr = (id >= 0 && id < kMaxTasks) ? g_throwOf[id].load(std::memory_order_relaxed) : -1;
     if (thr >= 0) {
       if (id == g_lateId.load(std::memory_order_relaxed)) {
@@ -113,6 +120,8 @@ static void resetBodies(int n) {
   g_barrierNeed.store(0, std::memory_order_relaxed);
   g_barrierArrived.store(0, std::memory_order_relaxed);
   g_lateId.store(-1, std::memory_order_relaxed);
+  g_cancelerId.store(-1, std::memory_order_relaxed);
+  g_cancelSet.store(nullptr, std::memory_order_relaxed);
   g_lateStarted.store(0, std::memory_order_relaxed);
   g_lateGo.store(0, std::memory_order_relaxed);
 }
@@ -184,7 +193,7 @@ struct Spec04 {
     j.kv("scn", std::string(1, scn)).kv("pool", pool).kv("mult", mult).kv("stealMult", stealMult).kv("kind", kindName(kind));
     j.kv("caller", caller ? "pool-task" : "external").kv("level", level).kv("hold", hold).kv("preApi", apiName(preApi)).kv("preCount", preCount);
     j.kv("postApi", apiName(postApi)).kv("postCount", postCount).kv("cancelBy", cancelBy ? "other-thread" : "self").kv("waitMode", waitMode);
-    if (scn == 'C') {
+    if (scn == 'C' || scn == 'E') {
       j.kv("depth", depth).kv("siblings", siblings).kv("bornCanceled", bornCanceled);
       j.kv("kinds", std::string(kindName(kinds[0])) + "," + kindName(kinds[1]) + "," + kindName(kinds[2]) + "," + kindName(kinds[3]));
     }
@@ -196,6 +205,7 @@ struct Spec04 {
     std::string k;
     if (scn == 'A') k = "A";
     else if (scn == 'C') k = "C" + std::to_string(depth);
+    else if (scn == 'E') k = "E" + std::to_string(std::min(depth, 2));
     else k = "D" + std::to_string(dvar);
     k += std::string("/") + kindName(kind) + "/" + apiName(postApi) + "/" + (caller ? "rec" : "ext") + "/" + (pool == 0 ? "pool0" : "poolN") + "/" + (hold ? "hold" : "free");
     return k;
@@ -224,6 +234,8 @@ enum Flag04 : unsigned {
   kFExcDirect = 1u << 4,
   kFThrowerNotRun = 1u << 5,
   kFSkipVerdict = 1u << 6,
+  kFCancelInBulk = 1u << 7,
+  kFCancelAfterExc = 1u << 8,
 };
 
 // Everything a worker thread writes and the main thread reads lives in static storage (never freed or
@@ -240,7 +252,7 @@ struct Shared04 {
   std::atomic<SetH*> cancelTarget{nullptr};
   std::atomic<int> cancelDone{0};
   std::atomic<int> gatesOpened{0};
-  std::atomic<int> done{0};
+  std::atomic<int> done{0}, phase{0}, throwerId{-1};
   void reset() {
     gates.reset();
     nextId.store(0, std::memory_order_relaxed);
@@ -253,6 +265,8 @@ struct Shared04 {
     cancelDone.store(0, std::memory_order_relaxed);
     gatesOpened.store(0, std::memory_order_relaxed);
     done.store(0, std::memory_order_relaxed);
+    phase.store(0, std::memory_order_relaxed);
+    throwerId.store(-1, std::memory_order_relaxed);
   }
 };
 static Shared04 g_sh;
@@ -522,18 +536,27 @@ static void driverD(Run04& r) {
     int n = nFollow + 1;
     firstFollower = r.alloc(n);
     thrower = firstFollower + std::min(s.throwIdx, n - 1);
-    g_throwOf[thrower].store(1000 + thrower, std::memory_order_relaxed);
+    if (s.dvar == 3) {
+      // a body of the batch cancels the set itself while scheduleBulk is running bodies inline
+      g_cancelSet.store(&set, std::memory_order_relaxed);
+      g_cancelerId.store(thrower, std::memory_order_relaxed);
+    } else {
+      g_throwOf[thrower].store(1000 + thrower, std::memory_order_relaxed);
+    }
     int direct = doSchedule(set, 2, firstFollower, n);
+    g_cancelerId.store(-1, std::memory_order_relaxed);
     nFollow = n;
     if (direct >= 0) {
       // documented alternative: propagated to the caller, the set is then not cancelled by it
       r.flag(kFExcDirect);
     } else if (g_mon.ran[thrower].load() == 0) {
       r.flag(kFThrowerNotRun);
+    } else if (g_mon.inlineOfCall[thrower].load() >= 0) {
+      r.flag(s.dvar == 3 ? kFCancelInBulk : (kFExcBulk | kFCancelInBulk));
     } else {
-      r.flag(kFExcBulk);
+      r.flag(kFThrowerNotRun);
     }
-    if (!set.canceled() && direct < 0 && g_mon.ran[thrower].load() != 0) {
+    if (s.dvar != 3 && !set.canceled() && direct < 0 && g_mon.ran[thrower].load() != 0) {
       vrt::violation("a functor run inline by scheduleBulk threw, the exception was captured, and the set is not cancelled", J(), "exception-no-cancel");
     }
     if (!set.canceled()) {
@@ -560,19 +583,124 @@ static void driverD(Run04& r) {
     got = e.id;
   }
   r.waitsChecked.fetch_add(1, std::memory_order_relaxed);
-  if (got != 1000 + thrower) vrt::violation("first wait() after an exception-cancel did not rethrow the captured exception", J().kv("got", got).kv("expected", 1000 + thrower).kv("returned", ret), "wait-result");
+  if (s.dvar == 3) {
+    if (got >= 0 || !ret) vrt::violation("wait() after a body cancelled its own set did not simply report cancellation", J().kv("got", got).kv("returned", ret), "wait-result");
+  } else if (got != 1000 + thrower) vrt::violation("first wait() after an exception-cancel did not rethrow the captured exception", J().kv("got", got).kv("expected", 1000 + thrower).kv("returned", ret), "wait-result");
   r.expectWaitTrue(set, "wait after the rethrow");
   // followers: none may start after the throw (single executing thread, see DESIGN C04 D)
   for (int i = 0; i < nFollow; ++i) {
     int id = firstFollower + i;
     if (id == thrower) continue;
     if (g_mon.ran[id].load() && g_mon.startStamp[id].load() > ts) {
-      vrt::violation("body started after the exception had cancelled the set", J().kv("id", id).kv("startStamp", g_mon.startStamp[id].load()).kv("throwStamp", ts), std::string("follower@") + kindName(set.kind));
+      vrt::violation(s.dvar == 3 ? "body of the batch started after an earlier body of the batch had cancelled the set" : "body started after the exception had cancelled the set", J().kv("id", id).kv("startStamp", g_mon.startStamp[id].load()).kv("throwStamp", ts), std::string("follower@") + kindName(set.kind));
     } else if (!g_mon.ran[id].load()) {
       r.followersSuppressed.fetch_add(1, std::memory_order_relaxed);
     }
   }
   g_sentinel.unwatch();
+}
+
+
+// ---- scenario E: child (kOn) alive, a sibling task of the parent throws (parent cancelled through the
+// exception path, which does not walk the children), then the owner calls parent.cancel() explicitly:
+// that cancel must reach the child. Judged on the child with the sound scenarios A (schedule after the
+// cancel from the one thread that schedules) and B (bodies force-queued while every other worker is gated).
+namespace {
+struct RunE {
+  Run04& r;
+  SetH* parent;
+  int depth;
+  std::vector<SetH*> chain;
+  void phaseWait(int want) {
+    while (g_sh.phase.load(HS_ACQ) < want) vrt::sleepUs(20);
+  }
+  void level(int lvl) {
+    const Spec04& s = r.s;
+    SetH me(s.kinds[lvl], r.pool, dispenso::ParentCascadeCancel::kOn, s.stealMult);
+    chain.push_back(&me);
+    ssize_t N = r.pool.numThreads();
+    if (lvl < depth) {
+      me.scheduleFQ([this, lvl]() { level(lvl + 1); });
+      r.expectWaitTrue(me, "intermediate level (cancel after exception)");
+    } else {
+      if (N == 0) {
+        // everything runs on this (the owner's) thread: the sibling is run inline by the force-queued path
+        for (SetH* c : chain) r.queuePre(*c, 2 + s.preCount);
+        int thr = r.alloc(1);
+        g_throwOf[thr].store(1000 + thr, std::memory_order_relaxed);
+        doSchedule(*parent, 1, thr, 1);
+        g_sh.throwerId.store(thr, std::memory_order_relaxed);
+        if (!parent->canceled()) vrt::violation("a task of the parent threw and the parent is not cancelled", J(), "exception-no-cancel");
+        parent->cancel(); // explicit cancel by the owner, after the exception-cancel
+      } else {
+        g_sh.phase.store(1, HS_REL); // child alive
+        phaseWait(2);                // sibling has thrown, parent seen cancelled, every other worker is gated again
+        for (SetH* c : chain) r.queuePre(*c, 2 + s.preCount);
+        g_sh.phase.store(3, HS_REL);
+        phaseWait(4);                // the owner's explicit parent.cancel() has returned
+      }
+      for (SetH* c : chain) {
+        if (!c->canceled()) vrt::violation("child set not cancelled by an explicit parent.cancel() that followed an exception-cancel of the parent", J().kv("kind", kindName(c->kind)), "cascade-flag-after-exception");
+        r.postOn(*c, N > 0);
+      }
+      r.flag(kFCancelAfterExc);
+      r.openGates();
+      r.expectWaitTrue(me, "child after exception + explicit cancel");
+    }
+    chain.pop_back();
+  }
+};
+} // namespace
+
+static void driverE(Run04& r) {
+  const Spec04& s = r.s;
+  ssize_t N = r.pool.numThreads();
+  SetH root(s.kinds[0], r.pool, dispenso::ParentCascadeCancel::kOff, s.stealMult);
+  SetH* rootp = &root;
+  Run04* rp = &r;
+  int depth = std::min(s.depth, 2);
+  int thr = -1;
+  if (N > 0) {
+    // N >= 2: one worker runs the (held) sibling thrower, one runs the task that owns the children
+    r.holdWorkers(static_cast<int>(N - 2));
+    thr = r.alloc(1);
+    g_throwOf[thr].store(1000 + thr, std::memory_order_relaxed);
+    g_lateId.store(thr, std::memory_order_relaxed);
+    doSchedule(root, 1, thr, 1);
+    while (!g_lateStarted.load(HS_ACQ)) vrt::sleepUs(20);
+  }
+  root.scheduleFQ([rp, rootp, depth]() {
+    {
+      RunE e{*rp, rootp, depth, {}};
+      e.level(1);
+    }
+    g_sh.done.store(1, HS_REL);
+  });
+  if (N > 0) {
+    while (g_sh.phase.load(HS_ACQ) < 1) vrt::sleepUs(20);
+    g_lateGo.store(1, HS_REL); // the sibling throws now: exception-cancel of the parent
+    while (!root.canceled()) vrt::sleepUs(20);
+    // its worker is free again: gate it, so that nothing but the child-owning task can execute anything
+    r.aux.schedule([rp]() { rp->gates.body(); }, dispenso::ForceQueuingTag());
+    r.gates.waitArrived(static_cast<int>(N - 1));
+    g_sh.phase.store(2, HS_REL);
+    while (g_sh.phase.load(HS_ACQ) < 3) vrt::sleepUs(20);
+    root.cancel(); // explicit cancel by the owner
+    g_sh.phase.store(4, HS_REL);
+    while (!g_sh.done.load(HS_ACQ)) vrt::sleepUs(30);
+  } else {
+    thr = g_sh.throwerId.load(std::memory_order_relaxed);
+  }
+  r.openGates();
+  // the parent's first wait rethrows the sibling's exception, the next one reports cancellation
+  int got = -1;
+  try {
+    root.wait();
+  } catch (const VEx& e) {
+    got = e.id;
+  }
+  if (got != 1000 + thr) vrt::violation("parent wait() did not rethrow the sibling's exception", J().kv("got", got).kv("expected", 1000 + thr), "wait-result");
+  r.expectWaitTrue(root, "parent after the rethrow");
 }
 
 static void genSpec04(vrt::Rng& r, long idx, Spec04& s) {
@@ -586,7 +714,7 @@ static void genSpec04(vrt::Rng& r, long idx, Spec04& s) {
   s.postApi = static_cast<int>(idx % 4);
   s.level = static_cast<int>((idx / 4) % 4);
   int scnSel = static_cast<int>((idx / 16) % 8);
-  s.scn = scnSel < 4 ? 'A' : scnSel < 6 ? 'C' : 'D';
+  s.scn = scnSel < 4 ? 'A' : scnSel < 6 ? 'C' : scnSel < 7 ? 'D' : 'E';
   s.hold = true;
   s.preApi = r.chance(0.5) ? 1 : 3;
   s.preCount = static_cast<int>(r.range(0, 6));
@@ -616,13 +744,23 @@ static void genSpec04(vrt::Rng& r, long idx, Spec04& s) {
     s.caller = s.pool > 0 ? 1 : 0;
     // the root is cancelled from the external thread only if that is inside its contract
     s.cancelBy = (s.pool > 0 && r.chance(0.4)) ? 1 : 0;
+  } else if (s.scn == 'E') {
+    const int ep[] = {0, 2, 3, 4, 2, 0};
+    s.pool = ep[r.below(6)];
+    if (th && r.chance(0.3)) s.pool = static_cast<int>(r.range(5, 9));
+    s.depth = static_cast<int>(r.range(1, 2));
+    for (int i = 0; i < 4; ++i) s.kinds[i] = static_cast<int>(r.below(3));
+    s.kind = s.kinds[s.depth];
+    s.caller = s.pool > 0 ? 1 : 0;
+    s.cancelBy = 0;
+    s.level = 0;
   } else {
-    s.dvar = r.chance(0.5) ? 1 : 2;
+    s.dvar = static_cast<int>(r.pick(std::vector<int>{1, 1, 2, 2, 3, 3}));
     s.followers = static_cast<int>(r.range(1, 12));
     s.throwIdx = static_cast<int>(r.range(0, s.followers));
     s.caller = 0;
     s.cancelBy = 0;
-    if (s.dvar == 2 && s.level == 0) s.level = 1;
+    if (s.dvar >= 2 && s.level == 0) s.level = 1;
   }
 }
 
@@ -680,6 +818,8 @@ static void runC04() {
         driverA(run);
       } else if (s.scn == 'C') {
         driverC(run);
+      } else if (s.scn == 'E') {
+        driverE(run);
       } else {
         driverD(run);
       }
@@ -718,6 +858,9 @@ static void runC04() {
       if (fl & kFExcBulk) cls("exception-cancel:bulk-inline");
       if (fl & kFExcDirect) cls("exception-direct");
       if (fl & kFThrowerNotRun) cls("thrower-not-run");
+      if (fl & kFCancelInBulk) cls("cancel-during-inline-bulk");
+      if ((fl & kFCancelInBulk) && s.dvar == 3) cls("cancel-during-inline-bulk:body-cancels");
+      if (fl & kFCancelAfterExc) cls("cancel-after-exception-cascade");
       waits = run.waitsChecked.load();
       fillers = run.fillers.load();
     }
